@@ -82,7 +82,7 @@ var sumKinds = []string{"del-sum", "sum-garbage", "sum-truncate", "sum-swap", "s
 var runKinds = []string{"run-all", "run-all-force", "run-fail", "run-subset", "run-nonall"}
 
 func pkgDirs(root bool) []string {
-	d := []string{"a", "b", "b/nested", "c"}
+	d := []string{"a", "b", "b/nested", "c", "apis/foo/v1", "apis/bar/v1", "apis/bar/v1"}
 	if root {
 		d = append(d, ".")
 	}
@@ -241,7 +241,11 @@ func newWorld(w *core.Worker, name string, root bool, late bool) (*world, error)
 		{Dir: pre + "a", Name: "a", Imports: []string{mod + "/" + pre + "b"}, Types: []string{"A1", "A2"}, Tags: tags},
 		{Dir: pre + "b", Name: "b", Imports: []string{mod + "/" + pre + "b/nested"}, Types: []string{"B1"}, Tags: tags},
 		{Dir: pre + "b/nested", Name: "nested", Types: []string{"N1"}, Tags: tags},
-		{Dir: pre + "c", Name: "c", Types: []string{"C1"}, Tags: tags},
+		{Dir: pre + "c", Name: "c", Imports: []string{mod + "/" + pre + "apis/foo/v1", mod + "/" + pre + "apis/bar/v1"}, Types: []string{"C1"}, Tags: tags},
+		// two local packages with the same package NAME in different directories: each has its own directory hash
+		// (seeded change C08-n: directory hashes memoised by package name)
+		{Dir: pre + "apis/foo/v1", Name: "v1", Types: []string{"F1"}, Tags: tags},
+		{Dir: pre + "apis/bar/v1", Name: "v1", Types: []string{"G1", "G2"}, Tags: tags},
 	}
 	if root {
 		ps[0].Imports = append(ps[0].Imports, mod)
